@@ -119,18 +119,23 @@ Proof.
   rewrite app_length. simpl. lia.
 Qed.
 
-(* line comments: up to, not including, the newline *)
-Lemma skipTo_plain : forall body r, Forall (fun x => x <> 0 /\ x <> 92 /\ x <> 10) body ->
+(* line comments: up to, not including, the first newline that is not preceded by a backslash *)
+Lemma skipTo_line : forall n body r, (length body <= n)%nat -> line_ok body = true ->
   skipTo [10] (body ++ 10 :: r) = Ok (10 :: r).
 Proof.
-  induction body as [|x body IH]; intros r F; cbn [app skipTo].
-  - reflexivity.
-  - inversion F as [|? ? (A & B & C) F']; subst. apply Z.eqb_neq in A, B, C. rewrite A, B.
-    cbn [inb existsb]. rewrite C. cbn [orb]. apply IH; auto.
+  induction n; intros body r L K.
+  - destruct body; [reflexivity|simpl in L; lia].
+  - destruct body as [|c b1]; [reflexivity|]. cbn [line_ok] in K. cbn [app skipTo]. simpl in L.
+    destruct (c =? 92) eqn:E92.
+    + destruct b1 as [|c1 b2]; [discriminate|]. apply andb_true_iff in K. destruct K as [K K3].
+      apply andb_true_iff in K. destruct K as [K1 K2]. apply negb_true_iff in K1.
+      apply Z.eqb_eq in E92. subst c. cbn [Z.eqb app]. rewrite K1. apply IHn; auto. simpl in L. lia.
+    + apply andb_true_iff in K. destruct K as [K K3]. apply andb_true_iff in K. destruct K as [K1 K2].
+      apply negb_true_iff in K1, K2. rewrite K1. cbn [inb existsb]. rewrite K2. cbn [orb]. apply IHn; auto. lia.
 Qed.
 
 Theorem lex_line_comment : forall body rest,
-  Forall (fun x => x <> 0 /\ x <> 92 /\ x <> 10) body ->
+  line_ok body = true ->
   getToken fixed ops (47 :: 47 :: body ++ 10 :: rest) = Ok (Some (TComment (47 :: 47 :: body)), 10 :: rest).
 Proof.
   intros body rest F.
@@ -161,8 +166,8 @@ Proof.
     unfold ot_has, ot_and, ot_true. rewrite A1, A2. reflexivity. }
   rewrite H, TY. cbn [andb].
   assert (SK : skipTo [10] (47 :: 47 :: body ++ 10 :: rest) = Ok (10 :: rest)).
-  { change (47 :: 47 :: body ++ 10 :: rest) with ((47 :: 47 :: body) ++ 10 :: rest). apply skipTo_plain.
-    repeat constructor; auto; lia. }
+  { change (47 :: 47 :: body ++ 10 :: rest) with ((47 :: 47 :: body) ++ 10 :: rest).
+    apply (skipTo_line (length (47 :: 47 :: body))); auto. }
   rewrite SK. cbn [bind].
   change (47 :: 47 :: body ++ 10 :: rest) with ((47 :: 47 :: body) ++ 10 :: rest). rewrite str_between_app. reflexivity.
 Qed.
